@@ -1,6 +1,7 @@
 (* Props/C04.v — Serializer round trip: serialize then parse gives the same tree; the serializer
-   output is a fixed point.  Only statements here; proofs are in Syntax/SerializerProofs.v (and, for the
-   fragment, Syntax/RoundTrip.v).
+   output is a fixed point.  Only statements here; proofs are in Syntax/SerializerProofs.v and, for the
+   fragments, in Syntax/RoundTrip.v + SerializerRoundTrip.v (one-line patterns) and Syntax/RoundTripML.v +
+   EntryLoop.v + SerializerLoop.v + SerializerML.v (multi-line patterns).
 
    PROVED IN FULL, for ALL trees (not only parser outputs), about Syntax/SerializerModel.v:
      C04_serialize_total          serialize_with_options never panics / always returns
@@ -11,7 +12,32 @@
      C04_junk_verbatim, C04_junk_skipped     Junk is written byte for byte / not at all (the D6 repair)
      C04_comment_lines            the exact text serialize_comment writes
      C04_final_indent_zero        a run of the serializer ends at the indent level it started with
-   PROVED FOR THE FRAGMENT simple_resource (Syntax/RoundTrip.v: stand-alone comments of all three levels;
+   PROVED FOR THE FRAGMENT sml_resource (Syntax/SerializerML.v), both serializer options:
+     C04_roundtrip_multiline_partial   the round trip: the serializer's text parses back, without errors, to a
+                                  tree of the fragment with the same normal form (adjacent text elements joined,
+                                  whitespace-only comment lines emptied)
+     C04_fixpoint_multiline_partial    serialising the re-parsed tree gives the same text
+     C04_multiline_output         the text itself (SerializerML.sml_resource_text: as for the one-line fragment,
+                                  and a value with a line break starts on a new line unless its first byte is
+                                  one of . [ * ; every line after a line break is written as LF, 4 spaces (8 in
+                                  an attribute) and the line, also when the line is empty)
+     C04_multiline_contains_parser_outputs   for every tree tj of RoundTripML.ml_resource (the multi-line
+                                  fragment of C02) and EVERY layout cs of it, the tree the parser returns for
+                                  render cs tj is in the fragment (and joins to tj): the fragment is what the
+                                  parser produces from the sources that C02's fragment describes
+     C04_simple_in_multiline      the one-line fragment below is a sub-fragment
+   The fragment sml_resource: the entries are as in simple_resource below (stand-alone comments, messages and
+   terms with or without attached comment, attributes), but the value of a message, term or attribute is a
+   pattern as the parser returns it for a multi-line value: a list of text elements and placeables with a
+   simple inline expression such that
+     - no text element is empty, and a line feed occurs in a text element only as its last byte
+       (one text element per line; a blank line inside the value is the text element "LF"; the indentation of
+       a line beyond the common one is part of its text element, or a text element of its own in front of a
+       placeable), and
+     - the elements joined (adjacent text elements concatenated) form a pattern of RoundTripML.ml_pattern
+       (see Props/C02.v: lines free of '{' '}' CR, continuation lines not starting with . [ *, blank lines
+       inside empty, common indentation 0, no leading/trailing space or line break).
+   PROVED FOR THE SUB-FRAGMENT simple_resource (Syntax/RoundTrip.v: stand-alone comments of all three levels;
    messages and terms with or without attached comment whose value and attribute values are one-line patterns
    made of text and placeables with a reference (no call arguments) or a literal; messages with attributes
    only; see Props/C02.v for the exact definition and what it excludes), both serializer options:
@@ -32,6 +58,7 @@
 From FluentV Require Import Base.Bytes Base.Outcome Base.Utf8 Syntax.Ast.
 From FluentV Require Import Syntax.ParserModel Syntax.SerializerModel Syntax.SerializerProofs Syntax.TreeNorm.
 From FluentV Require Import Syntax.Render Syntax.RoundTrip Syntax.SerializerRoundTrip.
+From FluentV Require Import Syntax.EntryLoop Syntax.RoundTripML Syntax.SerializerML.
 
 (* ---- "serialising ... yields" : the serializer returns for every tree ---- *)
 Theorem C04_serialize_total :
@@ -206,6 +233,46 @@ Proof.
     rewrite (IH Hr); reflexivity.
 Qed.
 
+(* ---- the multi-line fragment (SerializerML.sml_resource) ---- *)
+(* C04_roundtrip_statement with the extra premise that the parsed tree lies in the fragment; there are no
+   errors, and the re-parsed tree is in the fragment again *)
+Theorem C04_roundtrip_multiline_partial :
+  forall bs t errs, parse bs = Done (t, errs) -> sml_resource t = true ->
+  forall with_junk s, serialize_with_options with_junk t = Done s ->
+  exists t2 errs2, parse s = Done (t2, errs2) /\ norm t2 = norm (drop_junk_unless with_junk t) /\
+                   errs2 = [] /\ sml_resource t2 = true.
+Proof.
+  intros bs t errs _ Ht wj s Hs.
+  destruct (parse_serialize_sml wj t Ht) as (t2 & Es & Ep & Hn & Ht2 & _).
+  rewrite Es in Hs. injection Hs as <-.
+  exists t2, []. rewrite (g_no_junk sml_pok t wj Ht). repeat split; assumption.
+Qed.
+
+Theorem C04_fixpoint_multiline_partial :
+  forall bs t errs, parse bs = Done (t, errs) -> sml_resource t = true ->
+  forall with_junk s, serialize_with_options with_junk t = Done s ->
+  forall t2 errs2, parse s = Done (t2, errs2) -> serialize_with_options with_junk t2 = Done s.
+Proof.
+  intros bs t errs _ Ht wj s Hs t2 errs2 Hp2.
+  destruct (parse_serialize_sml wj t Ht) as (t2' & Es & Ep & _ & _ & Efix).
+  rewrite Es in Hs. injection Hs as <-. rewrite Ep in Hp2. injection Hp2 as <- <-. exact Efix.
+Qed.
+
+Theorem C04_multiline_output :
+  forall with_junk t, sml_resource t = true ->
+  serialize_with_options with_junk t = Done (sml_resource_text t).
+Proof. intros wj t Ht. destruct (parse_serialize_sml wj t Ht) as (t2 & Es & _). exact Es. Qed.
+
+(* the fragment contains the parser's output for every layout of every tree of C02's multi-line fragment *)
+Theorem C04_multiline_contains_parser_outputs :
+  forall cs tj, ml_resource tj = true ->
+  exists t, parse (render cs tj) = Done (t, []) /\ sml_resource t = true /\ map join_entry t = tj.
+Proof. exact parser_outputs_sml. Qed.
+
+Theorem C04_simple_in_multiline : forall t, simple_resource t = true -> sml_resource t = true.
+Proof. exact simple_resource_sml. Qed.
+
+(* ---- the one-line fragment (RoundTrip.simple_resource), where more is known ---- *)
 (* C04_roundtrip_statement with the extra premise that the parsed tree lies in the fragment.  The re-parsed
    tree is even known exactly: it is the first tree with every whitespace-only comment line made empty
    (SerializerRoundTrip.nz_resource; for a tree without such lines: the same tree), and there are no errors *)
@@ -282,6 +349,18 @@ Local Ltac conj_compute := repeat (split; [vm_compute; reflexivity|]); vm_comput
 Local Notation b := bytes_of_string.
 Local Notation LF := [10%N].
 Local Notation CRLF := [13%N; 10%N].
+
+(* a source whose tree is in the multi-line fragment: extra indentation, a blank line inside, a line led by a
+   placeable, CRLF line ends, a multi-line attribute; its serialization *)
+Example C04_example_multiline_in_fragment :
+  let src := b "# c" ++ CRLF ++ b "-t = first" ++ CRLF ++ b "     indented" ++ CRLF ++ CRLF ++ b "   last { m.a }" ++ LF ++
+             b "      { ""A{"" } x" ++ LF ++ b "  .attr = {$v}" ++ LF ++ b "     second" ++ LF ++ b "      third" ++ LF in
+  exists t, parse src = Done (t, []) /\ sml_resource t = true /\
+            serialize_with_options true t =
+            Done (b "# c" ++ LF ++ b "-t =" ++ LF ++ b "    first" ++ LF ++ b "      indented" ++ LF ++ b "    " ++ LF ++
+                  b "    last { m.a }" ++ LF ++ b "       { ""A{"" } x" ++ LF ++
+                  b "    .attr =" ++ LF ++ b "        { $v }" ++ LF ++ b "        second" ++ LF ++ b "         third" ++ LF).
+Proof. eexists. conj_compute. Qed.
 
 (* a select expression with a default variant *)
 Example C04_example_select :
